@@ -824,13 +824,16 @@ def generate_name_alternatives():
             if entry[4]:
                 for a in alternatives:
                     for up, up_data in unit_prefixes.items():
+                        # every spelling of the micro prefix resolves to the
+                        # same symbol as the prefixed symbol itself does
+                        okey = ("μ" if up in ["u", "μ", "µ"] else up) + key
                         if len(a) < 4:
-                            append_name(names[up + key], up + key, up + a)
+                            append_name(names[up + key], okey, up + a)
                         alt = up_data[1] + a
                         if alt not in seen:
-                            append_name(names[up + key], up + key, alt)
+                            append_name(names[up + key], okey, alt)
                         if alt.title() not in names[up + key]:
-                            append_name(names[up + key], up + key, alt.title())
+                            append_name(names[up + key], okey, alt.title())
             for alt in alternatives:
                 append_name(names[key], key, alt)
                 if not alt.islower() or len(alt) < 4:
